@@ -31,7 +31,7 @@ COMPONENTS = {
     "stub": ["CAN backend (SimBus)", "can.Notifier (frames fed to Network.notify by the simulator)", "SDO client (RefSdoClient reference model)"],
 }
 PROBES = ["upload-exp", "upload-seg", "upload-empty", "download-exp", "download-seg", "download-empty", "garbage-fresh-node",
-          "garbage-inside-transfer", "restart-inside-transfer", "refusal", "source-callback", "source-stored", "source-parameter", "source-default", "dynamic-array-member", "read-callback-refuses-once", "write-callback-writes-a-sibling"]
+          "garbage-inside-transfer", "restart-inside-transfer", "refusal", "source-callback", "source-stored", "source-parameter", "source-default", "dynamic-array-member", "read-callback-refuses-once", "write-callback-writes-a-sibling", "peer-answers-inside-send"]
 # probes that mark an injected disturbance; the runner also counts them as fired faults in the evidence
 FAULT_PROBES = {'garbage-fresh-node': 'garbage-request-frame',
  'garbage-inside-transfer': 'garbage-request-frame',
@@ -304,6 +304,88 @@ def _pick_entry(ctx, w, entries):
     return e
 
 
+def _answers_inside_send(ctx, node_id):
+    """A peer that answers inside the server's send call: a Network whose send_message() (the documented integration point
+    for custom interfaces, and what the repository's own loop-back tests override) hands every response straight to an
+    event-driven client, which sends its next request from inside that handler.  Every request of the valid segmented
+    transfer is therefore handled while the server is still sending the previous response."""
+    import canopen
+    import canopen.objectdictionary as odm
+    n = 8 + ctx.choice(40, "relen")
+    value = world.pattern(n, 41)
+    od = canopen.ObjectDictionary()
+    od.add_object(world.var("Blob", 0x2F10, 0, odm.DOMAIN, "rw", default=None))
+    rx, tx = 0x600 + node_id, 0x580 + node_id
+    st = {"got": bytearray(), "toggle": 0, "done": False, "aborted": None, "responses": 0, "mode": None, "pos": 0, "depth": 0, "maxdepth": 0}
+
+    class LoopNet(canopen.Network):
+        def send_message(self, can_id, data, remote=False):
+            if can_id == tx:
+                on_response(bytes(data))
+
+    net = LoopNet()
+    local = canopen.LocalNode(node_id, od)
+    net.add_node(local)
+    local.data_store.setdefault(0x2F10, {})[0] = bytes(value)
+    dl = world.pattern(n, 43)
+
+    def request(fr):
+        st["depth"] += 1
+        st["maxdepth"] = max(st["maxdepth"], st["depth"])
+        try:
+            net.notify(rx, bytearray(fr), 0.0)
+        finally:
+            st["depth"] -= 1
+
+    def on_response(r):
+        st["responses"] += 1
+        if r[0] == 0x80:
+            st["aborted"] = int.from_bytes(r[4:8], "little")
+            return
+        if st["mode"] == "up":
+            if r[0] >> 5 == 2:                         # initiate upload response (segmented)
+                request(bytes([0x60, 0, 0, 0, 0, 0, 0, 0]))
+            elif r[0] >> 5 == 0:
+                k = 7 - ((r[0] >> 1) & 7)
+                st["got"] += r[1:1 + k]
+                if r[0] & 1:
+                    st["done"] = True
+                else:
+                    st["toggle"] ^= 1
+                    request(bytes([0x60 | st["toggle"] << 4, 0, 0, 0, 0, 0, 0, 0]))
+        else:
+            if st["pos"] >= n:
+                st["done"] = True
+                return
+            chunk = dl[st["pos"]:st["pos"] + 7]
+            st["pos"] += len(chunk)
+            last = st["pos"] >= n
+            t = st["toggle"]
+            st["toggle"] ^= 1
+            request(bytes([t << 4 | (7 - len(chunk)) << 1 | (1 if last else 0)]) + chunk + bytes(7 - len(chunk)))
+
+    what = "segmented %%s of %d bytes with a peer that answers inside the server's send call" % n
+    st["mode"] = "up"
+    try:
+        request(bytes([0x40, 0x10, 0x2F, 0, 0, 0, 0, 0]))
+    except Exception as e:      # noqa
+        ctx.violation("C02/raised-into-receive-path/%s@%s" % (type(e).__name__, site(e)), "%s: %r" % (what % "upload", e))
+    if st["aborted"] is not None or not st["done"] or bytes(st["got"]) != value:
+        ctx.violation("C02/upload-wrong-bytes/answers-inside-send", "%s: done=%s abort=%s, got %s, value %s" % (
+            what % "upload", st["done"], None if st["aborted"] is None else hex(st["aborted"]), bytes(st["got"]).hex(), value.hex()))
+    st.update(got=bytearray(), toggle=0, done=False, aborted=None, mode="down", pos=0)
+    try:
+        request(bytes([0x21, 0x10, 0x2F, 0]) + n.to_bytes(4, "little"))
+    except Exception as e:      # noqa
+        ctx.violation("C02/raised-into-receive-path/%s@%s" % (type(e).__name__, site(e)), "%s: %r" % (what % "download", e))
+    stored = local.data_store.get(0x2F10, {}).get(0)
+    if st["aborted"] is not None or not st["done"] or stored != dl:
+        ctx.violation("C02/store-mismatch/answers-inside-send", "%s: done=%s abort=%s, stored %r" % (
+            what % "download", st["done"], None if st["aborted"] is None else hex(st["aborted"]), stored))
+    ctx.probe("peer-answers-inside-send")
+    ctx.cover(("answers-inside-send", min(n // 7, 6)))
+
+
 def scenario(ctx):
     mode = ctx.choice(4, "mode")       # 0 seeded history; 1 upload sweep; 2 download sweep; 3 garbage first
     a = ctx.choice(65, "a")
@@ -338,6 +420,8 @@ def scenario(ctx):
             _do_upload(ctx, w, e, 1)
         _check_store(ctx, w, "sweep")
         return
+    if mode == 0 and ctx.choice(16, "answers-inside-send") == 1:
+        return _answers_inside_send(ctx, node_id)
     maxlen = 64
     if ctx.params.get("tier") == "thorough" and ctx.choice(6, "longvalues") == 0:
         maxlen = 10_000
